@@ -41,7 +41,7 @@ func ReadAndParse[T any](r io.ReadCloser, f func([]byte) (T, error)) (T, error) 
 		var t T
 		return t, err
 	}
-	return f(b)
+	return parse(b, f)
 }
 
 func OpenAndParse[T any](file string, f func([]byte) (T, error)) (T, error) {
